@@ -258,6 +258,26 @@ def _magnetic(ctx, F):
             sym = I.heap[e.id]["symbol"]
             for ch, rec in mf.items():
                 served[(sym, int(ch))] = {k: v for k, v in I.heap[rec.id].items()}
+    # coefficients that are not numbers of the probe text at all: if the module holds them as literals of another embedded
+    # table (part of the data was moved out of CFML_DATA into records of its own), the probe text does not stand for the
+    # package's data any more - an analysis without its anchor, not a finding
+    import re as _re
+    probe_numbers = {sp.Rational(x) for x in _re.findall(r"-?\d+\.\d+", CFML)}
+    foreign = {fr(v_) for forms_ in served.values() for vals_ in forms_.values() if isinstance(vals_, (tuple, list)) for v_ in vals_
+               if sp.Rational(str(fr(v_))) not in probe_numbers} if served else set()
+    if foreign:
+        mod_ = ctx.src.module("magnetic_ff").tree
+        other_literals = set()
+        for st_ in mod_.body:
+            if isinstance(st_, ast.Assign) and any(isinstance(t_, ast.Name) and t_.id == "CFML_DATA" for t_ in st_.targets):
+                continue
+            for nd_ in ast.walk(st_):
+                if isinstance(nd_, ast.Constant) and isinstance(nd_.value, float):
+                    other_literals.add(nd_.value)
+                    other_literals.add(-nd_.value)
+        if all(float(v_) in other_literals for v_ in foreign):
+            raise AnalysisError("magnetic_ff.init serves coefficients held in an embedded table other than CFML_DATA: the probe text "
+                                "does not stand for the package's data")
     extra = set(served) - set(want)
     ctx.check(not extra, "R4", "no element or charge state without an entry receives coefficients",
               f"{sorted(extra)} received data although the table has no entry for them", site, sample=sorted(map(str, served)))
